@@ -906,6 +906,11 @@ fn parse_code(r: &mut R, pool: &Pool) -> DResult<Code> {
 	for (i, (pc, _)) in raws.iter().enumerate() {
 		at.insert(*pc, i);
 	}
+	CODE_TRACE.with(|t| {
+		if let Some(t) = t.borrow_mut().as_mut() {
+			t.push(raws.iter().map(|(pc, _)| (*pc, code[*pc])).collect());
+		}
+	});
 	let n = raws.len();
 	let insn_target = |pc: usize, off: i64| -> DResult<usize> {
 		let t = pc as i64 + off;
@@ -942,6 +947,19 @@ fn parse_code(r: &mut R, pool: &Pool) -> DResult<Code> {
 	let raw = raw_attrs(r, pool)?;
 	let attrs = parse_attrs(raw, pool, Ctx::Code, Some(&cctx))?;
 	Ok(Code { max_stack, max_locals, insns, exceptions, attrs })
+}
+
+thread_local! {
+	static CODE_TRACE: std::cell::RefCell<Option<Vec<Vec<(usize, u8)>>>> = const { std::cell::RefCell::new(None) };
+}
+
+/// like `decode`, and also returns (bytecode offset, opcode byte) of every instruction of every Code
+/// attribute in file order
+pub fn decode_traced(bytes: &[u8]) -> DResult<(CClass, Vec<Vec<(usize, u8)>>)> {
+	CODE_TRACE.with(|t| *t.borrow_mut() = Some(Vec::new()));
+	let r = decode(bytes);
+	let trace = CODE_TRACE.with(|t| t.borrow_mut().take()).unwrap_or_default();
+	Ok((r?, trace))
 }
 
 pub struct Decoded {
